@@ -228,7 +228,7 @@ macro_rules! impl_dual_num {
                     )
                     .into_any());
                 }
-                if let Ok(mut r) = rhs.extract::<PyReadwriteArrayDyn<PyObject>>() {
+                if let Ok(r) = rhs.extract::<PyReadonlyArrayDyn<PyObject>>() {
                     // check data type of first element
                     if r.as_array()
                         .get(0)
@@ -236,10 +236,12 @@ macro_rules! impl_dual_num {
                         .bind(rhs.py())
                         .is_instance_of::<Self>()
                     {
-                        r.as_array_mut().map_inplace(|ri| {
-                            *ri = Py::new(rhs.py(), Self(self.0.clone() + ri.extract::<Self>(rhs.py()).unwrap().0)).unwrap().into_any()
-                        });
-                        return Ok(r.as_any().clone());
+                        return Ok(PyArray::from_owned_object_array(
+                            rhs.py(),
+                            r.as_array()
+                                .map(|ri| Py::new(rhs.py(), Self(self.0.clone() + ri.extract::<Self>(rhs.py()).unwrap().0)).unwrap()),
+                        )
+                        .into_any());
                     } else {
                         return Err(PyErr::new::<PyTypeError, _>(format!(
                             "Operation with the provided object type is not implemented. Supported data types are 'float', 'int' and '{}'.",
@@ -274,7 +276,7 @@ macro_rules! impl_dual_num {
                     )
                     .into_any());
                 }
-                if let Ok(mut r) = rhs.extract::<PyReadwriteArrayDyn<PyObject>>() {
+                if let Ok(r) = rhs.extract::<PyReadonlyArrayDyn<PyObject>>() {
                     // check data type of first element
                     if r.as_array()
                         .get(0)
@@ -282,10 +284,12 @@ macro_rules! impl_dual_num {
                         .bind(rhs.py())
                         .is_instance_of::<Self>()
                     {
-                        r.as_array_mut().map_inplace(|ri| {
-                            *ri = Py::new(rhs.py(), Self(self.0.clone() - ri.extract::<Self>(rhs.py()).unwrap().0)).unwrap().into_any()
-                        });
-                        return Ok(r.as_any().clone());
+                        return Ok(PyArray::from_owned_object_array(
+                            rhs.py(),
+                            r.as_array()
+                                .map(|ri| Py::new(rhs.py(), Self(self.0.clone() - ri.extract::<Self>(rhs.py()).unwrap().0)).unwrap()),
+                        )
+                        .into_any());
                     } else {
                         return Err(PyErr::new::<PyTypeError, _>(format!(
                             "Operation with the provided object type is not implemented. Supported data types are 'float', 'int' and '{}'.",
@@ -320,7 +324,7 @@ macro_rules! impl_dual_num {
                     )
                     .into_any());
                 }
-                if let Ok(mut r) = rhs.extract::<PyReadwriteArrayDyn<PyObject>>() {
+                if let Ok(r) = rhs.extract::<PyReadonlyArrayDyn<PyObject>>() {
                     // check data type of first element
                     if r.as_array()
                         .get(0)
@@ -328,10 +332,12 @@ macro_rules! impl_dual_num {
                         .bind(rhs.py())
                         .is_instance_of::<Self>()
                     {
-                        r.as_array_mut().map_inplace(|ri| {
-                            *ri = Py::new(rhs.py(), Self(self.0.clone() * ri.extract::<Self>(rhs.py()).unwrap().0)).unwrap().into_any()
-                        });
-                        return Ok(r.as_any().clone());
+                        return Ok(PyArray::from_owned_object_array(
+                            rhs.py(),
+                            r.as_array()
+                                .map(|ri| Py::new(rhs.py(), Self(self.0.clone() * ri.extract::<Self>(rhs.py()).unwrap().0)).unwrap()),
+                        )
+                        .into_any());
                     } else {
                         return Err(PyErr::new::<PyTypeError, _>(format!(
                             "Operation with the provided object type is not implemented. Supported data types are 'float', 'int' and '{}'.",
@@ -366,7 +372,7 @@ macro_rules! impl_dual_num {
                     )
                     .into_any());
                 }
-                if let Ok(mut r) = rhs.extract::<PyReadwriteArrayDyn<PyObject>>() {
+                if let Ok(r) = rhs.extract::<PyReadonlyArrayDyn<PyObject>>() {
                     // check data type of first element
                     if r.as_array()
                         .get(0)
@@ -374,10 +380,12 @@ macro_rules! impl_dual_num {
                         .bind(rhs.py())
                         .is_instance_of::<Self>()
                     {
-                        r.as_array_mut().map_inplace(|ri| {
-                            *ri = Py::new(rhs.py(), Self(self.0.clone() / ri.extract::<Self>(rhs.py()).unwrap().0)).unwrap().into_any()
-                        });
-                        return Ok(r.as_any().clone());
+                        return Ok(PyArray::from_owned_object_array(
+                            rhs.py(),
+                            r.as_array()
+                                .map(|ri| Py::new(rhs.py(), Self(self.0.clone() / ri.extract::<Self>(rhs.py()).unwrap().0)).unwrap()),
+                        )
+                        .into_any());
                     } else {
                         return Err(PyErr::new::<PyTypeError, _>(format!(
                             "Operation with the provided object type is not implemented. Supported data types are 'float', 'int' and '{}'.",
